@@ -9,10 +9,14 @@ src="$(realpath "$1")"; sid="$2"; shift 2
 props=("$@")
 wt="/tmp/vs-$sid"
 out="/verif/seeded/$sid"
-if ! git -C /repo diff --quiet; then echo "REPO DIRTY"; exit 3; fi
+# CHECK_REPO: where the patch is applied for the check runs. Default /repo itself (the registered way); a scratch
+# worktree (with VERIF_REPO pointing at it) lets a first triage run while /repo is busy with another sensitivity run.
+CHECK_REPO="${CHECK_REPO:-/repo}"
+if ! git -C "$CHECK_REPO" diff --quiet; then echo "REPO DIRTY"; exit 3; fi
+[ "$CHECK_REPO" != /repo ] && export VERIF_REPO="$CHECK_REPO"
 git -C /repo worktree remove --force "$wt" 2>/dev/null
 git -C /repo worktree add -q "$wt" HEAD || exit 3
-cleanup() { git -C /repo worktree remove --force "$wt" 2>/dev/null; git -C /repo checkout -- . ; }
+cleanup() { git -C /repo worktree remove --force "$wt" 2>/dev/null; git -C "$CHECK_REPO" checkout -- . ; }
 trap cleanup EXIT
 run_demo() { (cd "$wt" && PYTHONPATH="$wt" timeout 300 /venv/bin/python "$src/demo.py" >/tmp/vs-demo.out 2>&1); }
 run_demo; clean_rc=$?
@@ -30,7 +34,7 @@ echo "$tests" | grep -q "81 passed" || ok=0
 git -C /repo worktree remove --force "$wt"
 if [ $ok = 0 ]; then echo "$sid: NOT A VALID SEED (kept nothing)"; exit 5; fi
 # --- run our checks against it
-git -C /repo apply "$src/patch.diff" || { echo "apply to /repo failed"; exit 4; }
+git -C "$CHECK_REPO" apply "$src/patch.diff" || { echo "apply to $CHECK_REPO failed"; exit 4; }
 results="[]"
 cd /verif
 export VERIF_EVIDENCE_DIR=/dev/shm/verif-mutant-evidence VERIF_REPLAY_DIR=/dev/shm/verif-mutant-replays
@@ -43,7 +47,7 @@ for p in "${props[@]}"; do
   results=$(jq -c --arg p "$p" --argjson rc "$rc" --argjson nv "$nv" --arg sigs "$sigs" --arg tier "${TIER:-quick}" \
      '. + [{check:$p, tier:$tier, exit:$rc, violations:$nv, signatures:$sigs}]' <<<"$results")
 done
-git -C /repo checkout -- .
+git -C "$CHECK_REPO" checkout -- .
 mkdir -p "$out"
 cp "$src/patch.diff" "$src/demo.py" "$out/"
 [ -f "$src/notes.md" ] && cp "$src/notes.md" "$out/"
